@@ -415,6 +415,6 @@ pub fn run(thorough: bool, rest: &[String]) {
     let np = rep.coverage["patch_sweep"]["pairs_with_nonempty_patch"].as_u64().unwrap_or(0);
     rep.set("distinct_nontrivial", json!(np));
     rep.set("exhaustive", json!(true));
-    rep.set("rule", json!("(a) ALL ordered pairs (old,new) of sequences WITH repetition over k symbols up to length L: apply_diff_patch(old, make_diff_patch(old,new)) == new, also after the patch went through JSON, no panic; distinct_nontrivial = pairs with a non-empty patch. (b) EVERY chain up to the stated length over the 16 duplicate-free arrays on {x,y,z} plus 'key absent' (emptying, refilling, removing and re-adding the key included), committing after every step or only at the end: read after each step, read after a cold reopen, and the reconstruction of every stored version on the warm and the cold replica equal what was submitted; the whole walk is repeated for MELDA_ARRAYDESCRIPTORS_CACHE_CAP in {1,2,16} x MELDA_DATA_CACHE_CAP in {1,16}. (c) engine S: every schedule (preemption bound 1 quick / 2 thorough) of read and update on a replica with three arrays, a full cache of capacity 3 and cached ancestors two versions behind must give the sequential result."));
+    rep.set("rule", json!("(a) ALL ordered pairs (old,new) of sequences WITH repetition over k symbols up to length L: apply_diff_patch(old, make_diff_patch(old,new)) == new, also after the patch went through JSON, no panic; distinct_nontrivial = pairs with a non-empty patch. (b) EVERY chain up to the stated length over the 16 duplicate-free arrays on {x,y,z} plus 'key absent' (emptying, refilling, removing and re-adding the key included), committing after every step or only at the end: read after each step, read after a cold reopen, and the reconstruction of every stored version on the warm and the cold replica equal what was submitted; the whole walk is repeated for MELDA_ARRAYDESCRIPTORS_CACHE_CAP in {1,2,16} x MELDA_DATA_CACHE_CAP in {1,16}. (b2) EVERY chain length 1..40 (thorough 1..96) of successive single-step edits of one array (front / back / middle insert, remove, swap) x MELDA_ARRAYDESCRIPTORS_CACHE_CAP in {1,2}: a freshly opened replica on the same storage reads exactly the version submitted last (coverage.long_chain_cold_reads). (c) engine S: every schedule (preemption bound 1 quick / 2 thorough) of read and update on a replica with three arrays, a full cache of capacity 3 and cached ancestors two versions behind must give the sequential result."));
     rep.finish();
 }
